@@ -172,6 +172,11 @@ func (g *GoBackNConn) Send(data []byte) error {
 		}
 	}
 
+	// The packets queued below are transmitted, and possibly retransmitted,
+	// after Send has returned. They must not share memory with the caller's
+	// buffer, which the caller is free to reuse as soon as Send returns.
+	data = append([]byte(nil), data...)
+
 	if g.cfg.maxChunkSize == 0 {
 		// Splitting is disabled.
 		return sendPacket(&PacketData{
